@@ -151,7 +151,7 @@ def bounded_rule_chains(tier, seed):
     chains = []
     for n in range(1, 4 if tier == "quick" else 5):
         chains += [list(c) for c in itertools.product(RULE_VOCAB, repeat=n)]
-    for _ in range(4000 if tier == "quick" else 60000):
+    for _ in range(4000 if tier == "quick" else 400000):
         chains.append([rng.choice(RULE_VOCAB) for _ in range(rng.randint(4, 6))])
     for c in COMPLETE_CHAINS:
         chains.append(c)
@@ -160,7 +160,7 @@ def bounded_rule_chains(tier, seed):
         for extra in RULE_VOCAB:
             chains.append(c + ["assert_applies", extra])
             chains.append(c[:3] + ["assert_applies"] + c[3:] + ["assert_applies", extra])
-    for _ in range(1500 if tier == "quick" else 20000):
+    for _ in range(1500 if tier == "quick" else 150000):
         ch = [rng.choice(RULE_VOCAB) for _ in range(rng.randint(4, 7))]
         ch.insert(rng.randint(1, len(ch)), "assert_applies")
         chains.append(ch)
@@ -180,7 +180,7 @@ def bounded_unknown_names(tier, seed):
     for tree in ("deep", "prefix"):
         mods = TREES[tree]
         for limit in (None, 1):
-            for _ in range(20 if tier == "quick" else 200):
+            for _ in range(20 if tier == "quick" else 1000):
                 pairs = [(a, c) for a in mods for c in mods if a != c and "." in a and "." in c]
                 imports = rng.sample(pairs, rng.randint(0, 4))
                 arch = build_arch(mods, imports, level_limit=limit)
@@ -398,14 +398,14 @@ def bounded_layer_definitions(tier, seed):
     seqs = []
     for n in range(1, 5 if tier == "quick" else 6):
         seqs += [list(c) for c in itertools.product(LAYER_OPS, repeat=n)]
-    for _ in range(3000 if tier == "quick" else 40000):
+    for _ in range(3000 if tier == "quick" else 300000):
         seqs.append([rng.choice(LAYER_OPS) for _ in range(rng.randint(5, 8))])
     size = max(1, len(seqs) // 32)
     _merge(b, pmap(_c16_chunk, [seqs[i:i + size] for i in range(0, len(seqs), size)]))
     rs = []
     for n in range(1, 4 if tier == "quick" else 5):
         rs += [list(c) for c in itertools.product(LAYER_RULE_VOCAB, repeat=n)]
-    for _ in range(3000 if tier == "quick" else 30000):
+    for _ in range(3000 if tier == "quick" else 200000):
         rs.append(["based_on", "layers_that"][:rng.randint(0, 2)] + [rng.choice(LAYER_RULE_VOCAB) for _ in range(rng.randint(2, 5))])
     size = max(1, len(rs) // 32)
     _merge(b, pmap(_c16_rule_chunk, [rs[i:i + size] for i in range(0, len(rs), size)]))
